@@ -30,9 +30,20 @@ try:
     first = open(demo).readline()
     m = re.search(r"([\w./-]+/[\w./-]+|\bgrpc root\b|root package)", first)
     demodir = None
+    # the demo's first-line comment names its package directory: take the longest token that is one
     for cand in re.findall(r"[\w][\w./-]*", first):
-        if os.path.isdir(os.path.join(wt, cand)) and cand not in (".",):
-            demodir = cand
+        cand = cand.rstrip("./")
+        if cand and os.path.isdir(os.path.join(wt, cand)) and not cand.startswith("/"):
+            if demodir is None or len(cand) > len(demodir):
+                demodir = cand
+    if demodir is None and re.search(r"\broot\b", first):
+        demodir = "."
+    if demodir is None:
+        # fall back to the package clause: package grpc / grpc_test => root
+        src_ = open(demo).read()
+        m2 = re.search(r"(?m)^package\s+(\w+)", src_)
+        if m2 and m2.group(1) in ("grpc", "grpc_test"):
+            demodir = "."
     if demodir is None:
         demodir = touched[0]
     meta["demo_dir"] = demodir
